@@ -124,18 +124,23 @@ Definition bytes_leb a b := match bytes_cmp a b with Gt => false | _ => true end
 (* ---- slice reader (ZReader) ------------------------------------------- *)
 (* ZReader::read: all or nothing; on failure the reader does not advance *)
 Definition zread (n : nat) (bs : bytes) : res (bytes * bytes) :=
-  if Nat.ltb (length bs) n then Err EUnexpectedEOF else Ok (firstn n bs, skipn n bs).
+  if Nat.ltb (length (firstn n bs)) n then Err EUnexpectedEOF else Ok (firstn n bs, skipn n bs).
 
 Definition zread_i8 bs := let* '(x, r) := zread 1 bs in Ok (be_dec_s x, r).
 Definition zread_i16 bs := let* '(x, r) := zread 2 bs in Ok (be_dec_s x, r).
 Definition zread_i32 bs := let* '(x, r) := zread 4 bs in Ok (be_dec_s x, r).
 Definition zread_i64 bs := let* '(x, r) := zread 8 bs in Ok (be_dec_s x, r).
 
+(* [has_at_least l k]: k <= length l, without computing the whole length *)
+Fixpoint has_at_least {A} (l : list A) (k : Z) : bool :=
+  if k <=? 0 then true
+  else match l with [] => false | _ :: t => has_at_least t (k - 1) end.
+
 (* ZReader::read_bytes: len <= 0 -> empty slice *)
 Definition zread_bytes bs : res (bytes * bytes) :=
   let* '(len, r) := zread_i32 bs in
   if len <=? 0 then Ok ([], r)
-  else if Z.of_nat (length r) <? len then Err EUnexpectedEOF   (* compare before converting: len may be 2^31-1 *)
+  else if negb (has_at_least r len) then Err EUnexpectedEOF   (* compare before converting: len may be 2^31-1 *)
   else zread (Z.to_nat len) r.
 
 Definition zread_array_len bs : res (Z * bytes) :=
